@@ -9,6 +9,9 @@ CHECKS = {
  "C01": dict(engine="treemc", cat="model_checking", sec="5/C01",
    text="Explicit-state search: every tree of <=k populated nodes (k=2 quick, 3 thorough) over the derived atom alphabet of both corpus schemas under all 8 code-generation configurations is built on a fresh real GoStruct, rendered (Marshal7951 with nil/AppendModuleName/PrependModuleNameIdentityref/PreferShadowPath, EmitJSON), unmarshalled into an empty root, observed and re-rendered; the law (same Model, byte-identical JSON) is checked in every state. Bounded-exhaustive rather than sampled, which is the right level for an input-quantified round-trip law.",
    technique="explicit-state BFS over tree-building operation sequences on the real implementation, round-trip law in every state", note=TREE_NOTE),
+ "C02": dict(engine="treemc", cat="model_checking", sec="5/C02",
+   text="Explicit-state search over the same tree space as C01 (k=2 quick, 3 thorough, all 8 configurations): in every state the tree is rendered with TogNMINotifications (PathElem) at the root and at every container/list-entry sub-root with PathElemPrefix=path(node), the notifications are applied to an empty root with UnmarshalNotifications, and leaves, leaf-lists and ordered-list order are compared with the reference Model. A dedicated sub-check drives the exposed ordered list.",
+   technique="explicit-state BFS over tree-building sequences on the real implementation, gNMI round-trip law in every state and at every prefix", note=TREE_NOTE),
  "C08": dict(engine="valmc", cat="exploration", sec="5/C08",
    text="Small-scope exhaustive enumeration: every 1-2 element path over 3 names and 0-2 keys where one key takes every string of length 1..3 (thorough 1..4) over {a / [ ] = \\ space . e-acute} and the others a 12-value adversarial set; PathToString->StringToStructuredPath and the legacy string-slice form must return the path, and every produced string is hashed to decide injectivity directly.",
    technique="exhaustive enumeration of a bounded path alphabet against round-trip and injectivity laws on the real functions", note="values longer than the bound or outside the 9-character alphabet are not covered; proto.Equal is trusted"),
